@@ -32,11 +32,13 @@ ASSIGNOPS = [b'=', b'=', b'=', b'+=', b'-=', b'*=', b'/=', b'%=', b'..=']
 
 NAMES = [b'a', b'b', b'x', b'y', b'i', b'n', b't', b'foo', b'bar', b'player', b'_x', b'endx', b'_if', b'nilly',
          b'z', b'ba', b'bb', b'obj', b'\x8e', b'x\x83', b'\x97n', b'do_it', b'v2', b'count_1', b'self', b'tbl',
-         b'e', b'p', b'k', b'w', b'\xef\xbb\xbfm']
+         b'e', b'p', b'k', b'w', b'\xef\xbb\xbfm',
+         # identifiers that are reserved words or special names in neighbouring dialects (ordinary names here)
+         b'_ENV', b'_G', b'continue']
 BUILTINS = [b'print', b'spr', b'btn', b'rnd', b'flr', b'add', b'del', b'pairs', b'all', b'cls', b'sin', b'max',
             b'sub', b'tostr', b'_update', b'_draw', b'_init', b'mid', b'stat', b't']
 FIELDS = [b'x', b'y', b'w', b'len', b'pos', b'vel', b'name', b'update', b'draw', b'n', b'a', b'z', b'id', b'\x91k']
-LABELS = [b'top', b'done', b'l1', b'again', b'a', b'\x8eq']
+LABELS = [b'top', b'done', b'l1', b'again', b'a', b'\x8eq', b'continue']
 
 NUMBERS = [b'0', b'1', b'2', b'10', b'255', b'0.5', b'1.5', b'5.', b'.5', b'.25', b'1e3', b'2E-2', b'1e+2', b'0x10',
            b'0XFF', b'0x1f.8', b'0x.8', b'0b101', b'0B1', b'0b1.1', b'32767', b'007', b'3.14159',
@@ -49,7 +51,9 @@ STRINGS = [b'""', b'"s"', b"'s'", b'"a b"', b'"it\'s"', b'"\\n"', b'"\\65\\066"'
            b'"nil"', b'"true"', b"'false'", b'"end"', b'[[do]]', b'"("', b'"["', b'"{"', b'"."', b'"="', b'","', b'"..."',
            b'"::"', b'[[#\n   \n#]]', b'[[a\n \n\t\nb]]', b'"-"', b'"--"', b"'not'",
            # long strings whose text starts with one / two line breaks (the first one is not part of the value)
-           b'[[\n\nx]]', b'[==[\r\n\ny]==]', b'[[\n]]', b'[[\n\n]]']
+           b'[[\n\nx]]', b'[==[\r\n\ny]==]', b'[[\n]]', b'[[\n\n]]',
+           # levelled long strings whose text ends in a bracket (or bracket + equals): the closing bracket must keep its level
+           b'[==[see items[1]]==]', b'[=[t[i]]=]', b'[==[x]=]==]', b'[=[]]=]', b'[==[a]]b]==]']
 
 
 class Cfg:
@@ -289,6 +293,13 @@ class _Gen:
                 cond = self.exp(d - 1, vararg)
                 body = self.block(d - 1, in_loop, vararg, oneline='direct')
                 els = None
+                if ch.chance(16) and 'empty_then' not in self.cfg.avoid:
+                    # `if (c) else stmt`: PICO-8 rewrites the line to `if (c) then else stmt end`
+                    els = self.block(d - 1, in_loop, vararg, oneline='direct')
+                    if els:
+                        self.tags.add('short_if_empty_then')
+                        return ('shortif', cond, [], els)
+                    els = None
                 if not body:
                     body = [self.simple_stmt(d - 1, vararg, no_paren_head=True)]
                 if body[-1][0] == 'shortif':
@@ -304,6 +315,18 @@ class _Gen:
             finally:
                 self.scope_depth -= 1
             return ('shortif', cond, body, els)
+        if k in ('fornum', 'forin', 'while') and ch.chance(40) and d > 1:
+            # the `continue` idiom: the same label name at the end of every such loop body (labels belong to blocks)
+            self.tags.add('continue_idiom')
+            body = [('if', [(self.exp(0, vararg, simple=True), [('goto', b'continue')])], None)] + \
+                self.block(d - 1, True, vararg, oneline=oneline)
+            if body[-1][0] in ('return', 'break'):
+                body.pop()
+            body.append(('label', b'continue'))
+            if k == 'while':
+                return ('while', self.exp(d - 1, vararg), body)
+            return ('fornum', self.name(), self.exp(d - 1, vararg, simple=True), self.exp(d - 1, vararg, simple=True),
+                    None, body)
         if k == 'fornum':
             return ('fornum', self.name(), self.exp(d - 1, vararg, simple=True), self.exp(d - 1, vararg, simple=True),
                     self.exp(d - 1, vararg, simple=True) if ch.chance(70) else None,
@@ -347,7 +370,7 @@ def gen_program(ch, cfg=None):
 class RT:
     """One intended significant token."""
     __slots__ = ('text', 'kind', 'depth', 'stmt_start', 'stmt_depth', 'scope', 'scope_start', 'scope_end', 'role',
-                 'closer', 'opens', 'semi', 'after_block_open', 'sid')
+                 'closer', 'opens', 'semi', 'after_block_open', 'sid', 'paren_follows')
 
     def __init__(self, text, kind, depth):
         self.text = text
@@ -363,6 +386,7 @@ class RT:
         self.opens = False          # then / do / else / repeat / function-body ')' / ( [ {
         self.semi = False           # an optional ';' statement separator (layout may drop it)
         self.after_block_open = False
+        self.paren_follows = False  # the next statement starts with '(' and no ';' separates them
         self.sid = -1               # id of the statement this token belongs to (innermost)
 
     def __repr__(self):
@@ -518,7 +542,9 @@ class _Render:
         for s in blk:
             self.stmt(s, first)
             first = False
+            self.prev_kind = s[0]
         self.block_depth -= 1
+        self.prev_kind = None
 
     def explist(self, es):
         for i, e in enumerate(es):
@@ -542,9 +568,17 @@ class _Render:
         # an (always legal) ';' before a statement that starts with '(' - otherwise it would continue
         # the previous statement as a call
         if self.starts_with_paren(s) and not first_in_block:
-            t = self.emit(b';')
-            t.semi = False
-            start = len(self.toks)
+            # ... except, sometimes, after a statement that cannot be continued: one closed by `end`, or a short-if,
+            # which owns its line only (the parenthesis then starts the next line)
+            closed = getattr(self, 'prev_kind', None) in ('do', 'while', 'if', 'ifdo', 'fornum', 'forin', 'function',
+                                                          'localfunction') or \
+                (getattr(self, 'prev_kind', None) == 'shortif' and self.scope == 0 and self.toks[-1].scope_end)
+            if closed and self.ch is not None and self.ch.chance(150):
+                self.toks[-1].paren_follows = True
+            else:
+                t = self.emit(b';')
+                t.semi = False
+                start = len(self.toks)
         self.parent = sid
         if k == 'assign':
             for i, c in enumerate(s[1]):
